@@ -1008,6 +1008,26 @@ class Ctx:
         return body.live - without, edges
 
     # ---- counting / misc ------------------------------------------------------------------
+    INT_WIDTH = {"u8": 1, "i8": 1, "u16": 2, "i16": 2, "u32": 4, "i32": 4, "u64": 8, "i64": 8, "usize": 8, "isize": 8, "u128": 16, "i128": 16}
+
+    def narrowing_casts(self, body, live_only=True):
+        """IntToInt casts whose target integer type is narrower than the source (value-truncating `as`).
+        Returns [(bb, stmt, src_ty, dst_ty)]; casts whose source type cannot be read off a plain local are skipped."""
+        out = []
+        for bb, j, s in body.stmts():
+            if live_only and bb not in body.live:
+                continue
+            if s.get("k") != "assign" or s["rv"].get("k") != "cast" or s["rv"].get("ck") != "IntToInt":
+                continue
+            op = s["rv"]["op"]
+            if "l" not in op or op.get("p"):
+                continue
+            src = body.raw["locals"][op["l"]]["t"]
+            dst = s["rv"].get("t")
+            if src in self.INT_WIDTH and dst in self.INT_WIDTH and self.INT_WIDTH[dst] < self.INT_WIDTH[src]:
+                out.append((bb, s, src, dst))
+        return out
+
     def expect_sites(self, oid, sites, exactly=None, at_least=None, at_most=None, what="site", detail=""):
         n = len(sites)
         ok = True
